@@ -154,6 +154,15 @@ pub fn each(tier: Tier, tag_filter: Option<&str>, f: &mut dyn FnMut(&Ladder) -> 
                 p
             });
         }
+        // m functions (m function constants, m entry offsets), the first, the middle and the last called
+        for m in sizes(tier, &[(250, 260)]) {
+            if m > 4_200 {
+                continue;
+            }
+            let mut p: Vec<Stmt> = (0..m).map(|i| es(func(&format!("f{i}"), &["x"], vec![es(infix(id("x"), Operator::Add, int(i as i64)))]))).collect();
+            p.push(es(array(vec![calln("f0", vec![int(1)]), calln(&format!("f{}", m / 2), vec![int(1)]), calln(&format!("f{}", m - 1), vec![calln("f0", vec![int(5)])])])));
+            emit!("many-functions", "calls", m, 3_000, p);
+        }
         // m locals, all summed (and the first / last read again after the sum)
         for m in sizes(tier, &[(250, 260)]) {
             if m > 2_100 {
